@@ -834,6 +834,13 @@ static std::string handle(const std::string& cmd, const std::string& args) {
     }
     return s;
   }
+  if (cmd == "bend") {         // a b c nu nv nw: AsuBrick(a, b, c).uvw_end(grid nu x nv x nw), model Map/BrickEnd.v
+    GridMeta g;      // dimensions only: no data is allocated
+    g.nu = (int) to_ll(w.at(3)); g.nv = (int) to_ll(w.at(4)); g.nw = (int) to_ll(w.at(5));
+    g.axis_order = AxisOrder::XYZ;
+    auto e = AsuBrick((int) to_ll(w.at(0)), (int) to_ll(w.at(1)), (int) to_ll(w.at(2))).uvw_end(g);
+    return std::to_string(e[0]) + " " + std::to_string(e[1]) + " " + std::to_string(e[2]);
+  }
   if (cmd == "brick") {
     Grid<int8_t> g;
     g.spacegroup = row_sg((int) to_ll(w.at(0)));
